@@ -26,7 +26,7 @@ import (
 )
 
 const rule = "cases = rapid-drawn scenarios (registry mode long/short idle limit/short lifetime limit, 2-5 logical clients each holding at most one transaction, " +
-	"6-32 steps over begin{direct,Registry.Begin,service RPC; ro/rw; optional 20-100 ms deadline}/put/del/get/scan/commit/rollback/abandon/rejected TxGet/" +
+	"6-32 steps over begin{direct,Registry.Begin,service RPC; ro/rw; optional 20-100 ms deadline}/write_tx(=begin rw+put+commit)/put/del/get/scan/commit/rollback/abandon/rejected TxGet/" +
 	"CleanupStaleTransactions/CleanupConnection/GracefulShutdown, drawn way of ending what is still open), each executed in a child process on its own engine; " +
 	"oracle = lock-aware model (who holds the RW lock, which begins are queued) + map model of the database + closed-error rule + 'a fresh read-write " +
 	"transaction begins within 5 s and put+commit works' after every scenario (scenarios with a timed-out begin are run 4 times); " +
@@ -44,7 +44,8 @@ type KV struct {
 // can take is skipped), so steps can be drawn independently of each other and
 // deleted freely while shrinking.
 type Step struct {
-	Op         string `json:"op"` // begin put del get scan commit rollback abandon bad_get cleanup_stale cleanup_conn shutdown
+	Op string `json:"op"` // begin put del get scan commit rollback abandon bad_get cleanup_stale cleanup_conn shutdown; write_tx = begin rw + put + commit
+
 	C          int    `json:"c"`
 	Path       string `json:"path,omitempty"`        // begin: direct | reg | svc
 	RO         bool   `json:"ro,omitempty"`          // begin
@@ -283,7 +284,7 @@ var opTable = func() []string {
 		op string
 		n  int
 	}{
-		{"begin", 22}, {"put", 14}, {"del", 4}, {"get", 3}, {"scan", 2}, {"commit", 16}, {"rollback", 10},
+		{"begin", 20}, {"write_tx", 8}, {"put", 12}, {"del", 4}, {"get", 3}, {"scan", 2}, {"commit", 16}, {"rollback", 10},
 		{"abandon", 8}, {"bad_get", 4}, {"cleanup_stale", 5}, {"cleanup_conn", 6}, {"shutdown", 1},
 	}
 	var out []string
@@ -294,6 +295,9 @@ var opTable = func() []string {
 	}
 	return out
 }()
+
+// keys: key 0 is drawn most often so that different transactions meet on it
+var keyTable = []int{0, 0, 0, 1, 2}
 
 func genStep(t *rapid.T) Step {
 	s := Step{Op: rapid.SampledFrom(opTable).Draw(t, "op"), C: rapid.IntRange(0, 11).Draw(t, "c")}
@@ -309,12 +313,18 @@ func genStep(t *rapid.T) Step {
 				s.DeadlineMs = 0
 			}
 		}
+	case "write_tx":
+		s.Path = rapid.SampledFrom([]string{"direct", "reg", "svc"}).Draw(t, "path")
+		s.Peer = s.Path != "direct" && rapid.IntRange(0, 9).Draw(t, "peer") < 8
+		s.K = rapid.SampledFrom(keyTable).Draw(t, "k")
+		s.V = fmt.Sprintf("w%d", rapid.IntRange(0, 999).Draw(t, "v"))
+		s.Keep = rapid.IntRange(0, 9).Draw(t, "keep") < 3
 	case "put":
-		s.K = rapid.IntRange(0, nKeys-1).Draw(t, "k")
+		s.K = rapid.SampledFrom(keyTable).Draw(t, "k")
 		s.V = fmt.Sprintf("v%d", rapid.IntRange(0, 999).Draw(t, "v"))
 		s.Again = rapid.IntRange(0, 9).Draw(t, "again") < 3
 	case "del", "get":
-		s.K = rapid.IntRange(0, nKeys-1).Draw(t, "k")
+		s.K = rapid.SampledFrom(keyTable).Draw(t, "k")
 		s.Again = rapid.IntRange(0, 9).Draw(t, "again") < 3
 	case "scan":
 		s.Again = rapid.IntRange(0, 9).Draw(t, "again") < 3
